@@ -268,15 +268,11 @@ func (st *state) execute(label string, upFront bool, order []string) (res execRe
 		}
 		if aerr != nil {
 			res.rejected, res.rejectedAt, res.err = true, "append:"+id, aerr.Error()
-			// nothing is demanded of a schema whose AppendType failed; what
-			// state it was left in is only counted
-			quiet := schemacheck.Check(s)
-			for _, p := range quiet {
-				if !p.DontCare {
-					c.DontCare("schema-inconsistent-after-failed-append")
-					break
-				}
-			}
+			// nothing is demanded of a schema whose AppendType failed. The
+			// state it is left in is not examined: how far the type map was
+			// extended before the error depends on map iteration inside the
+			// library, so any count of it would not be a function of the seed.
+			c.DontCare("append-rejected:schema-state-not-examined")
 			return
 		}
 		if !schemacheck.IsNil(t) {
@@ -294,7 +290,7 @@ func (st *state) execute(label string, upFront bool, order []string) (res execRe
 		return
 	}
 	res.desc = desc
-	st.droppedEntries(s)
+	st.droppedEntries(s, b)
 	return
 }
 
@@ -302,7 +298,7 @@ func (st *state) execute(label string, upFront bool, order []string) (res execRe
 // accepted schema silently lacks: a field, input field or enum value the
 // model configured under a type that is in the schema. The property states
 // no clause about it (the schema that results is judged on its own).
-func (st *state) droppedEntries(s graphql.Schema) {
+func (st *state) droppedEntries(s graphql.Schema, b *built) {
 	names := map[string]int{}
 	for _, t := range st.m.Types {
 		names[t.Name]++
@@ -320,6 +316,10 @@ func (st *state) droppedEntries(s graphql.Schema) {
 				}
 			}()
 			have = map[string]bool{}
+			if s.Type(t.Name) != b.reg[t.ID] {
+				ok = false // another object holds that name (or the type is not in the schema)
+				return
+			}
 			switch tt := s.Type(t.Name).(type) {
 			case *graphql.Object:
 				for k := range tt.Fields() {
@@ -344,6 +344,7 @@ func (st *state) droppedEntries(s graphql.Schema) {
 			if have[f.Name] {
 				continue
 			}
+			fname := f.Name
 			what := "field"
 			if t.Kind == KInput {
 				what = "inputfield"
@@ -355,6 +356,12 @@ func (st *state) droppedEntries(s graphql.Schema) {
 				st.c.DontCare("config-entry-dropped:illegally-named-" + what)
 			default:
 				st.c.DontCare("config-entry-dropped:" + what)
+				if dump := os.Getenv("C11_DUMP"); dump != "" {
+					if f, err := os.OpenFile(dump, os.O_APPEND|os.O_CREATE|os.O_WRONLY, 0o644); err == nil {
+						fmt.Fprintf(f, "=== dropped %s.%s (%s) batch %d %s\n%s\n", t.Name, fname, st.exec, st.c.Batch, st.caseID, st.m.Canon())
+						f.Close()
+					}
+				}
 			}
 		}
 	}
